@@ -275,7 +275,9 @@ class Layout:
 
     def comment(self):
         if self.comments and self.rng is not None and self.rng.random() < 0.5:
-            return "#" + self.rng.choice(["", " a comment", " (when true (report))", "# := + 1", " é"]) + "\n"
+            # a comment runs to its LINE FEED: carriage returns, tabs, parentheses and program text inside it are comment text
+            return "#" + self.rng.choice(["", " a comment", " (when true (report))", "# := + 1", " é", " old\r(:= Cwnd 0)", "\r(when true (report))",
+                                          " a\rb c", "\r", " x\r", "\t(\r)", " crlf\r", " \r\r#(fallthrough)"]) + "\n"
         return ""
 
 
@@ -461,6 +463,17 @@ def corner_programs():
             out.append(head + "(when (:= %s %s) (report))" % (tgt, v))                  # a bind as the condition
             out.append(head + "(when (&& (:= %s %s) true) (report))" % (tgt, v))
             out.append(head + "(when true (:= Report.x (+ 1 (:= %s %s))) (report))" % (tgt, v))
+    # a bind whose TARGET is itself a bind (it evaluates to the inner target's register), with values whose code is shorter than,
+    # as long as, and longer than the target's code (operand code order matters to the stateful instructions' placeholder)
+    ntargets = ("(:= Report.x 1)", "(:= c (+ 1 2))", "(bind c Micros)", "(:= Report.x (+ (+ 1 2) (+ 3 4)))", "(:= loc 2)", "(:= Cwnd 10)",
+                "(:= (:= c 1) 2)", "(:= Report.x (if true 4))")
+    nvalues = ("3", "(+ Micros 3)", "(if true 5)", "(if (> Micros 3) 5)", "(!if (== 1 2) (+ c 1))", "(ewma 2 3)", "(ewma 2 (+ Micros 3))",
+               "(if (&& (> Micros 3) (< Micros 9)) (+ (+ c 1) (+ c 2)))", "(:= c 7)", "(> 2 1)")
+    for tgt in ntargets:
+        for v in nvalues:
+            out.append(head + "(when true (:= %s %s) (report))" % (tgt, v))
+            out.append(head + "(when true (bind %s %s) (:= Report.x (+ Report.x c)) (report))" % (tgt, v))
+            out.append(head + "(when (> (:= %s %s) 0) (report))" % (tgt, v))
     out += semantic_corner_programs()
     return out
 
